@@ -120,13 +120,20 @@ def gen(inv, cfgv, rnd, nrec_choices=(0, 1, 2, 3)):
             v = nz(rnd, n)
             vals[d] = v
             reply += u(2, d) + v
-        if cid == 22:
-            sd = [len(vals)]
-            for k in sorted(vals):
-                sd += [k] + enc_bytes(vals[k])
-            out.append((reply, sd, 1, 'did values'))
-        else:
-            out.append((reply, ('value', vals[l[0]]), 1, 'first did value'))
+        replies = [(reply, '')]
+        fixed = all(isospec.did_shape(dids, d) is not None and isospec.did_shape(dids, d) >= 0 for d in l)
+        if len(set(l)) == len(l) >= 2 and fixed:
+            # the server may list the identifiers in another order than they were asked for: the values are keyed by identifier
+            replies.append((b'\x62' + b''.join(u(2, d) + vals[d] for d in reversed(l)), ' (response in reverse order)'))
+            replies.append((b'\x62' + b''.join(u(2, d) + vals[d] for d in l[1:] + l[:1]), ' (response rotated)'))
+        for rep, sfx in replies:
+            if cid == 22:
+                sd = [len(vals)]
+                for k in sorted(vals):
+                    sd += [k] + enc_bytes(vals[k])
+                out.append((rep, sd, 1, 'did values' + sfx))
+            else:
+                out.append((rep, ('value', vals[l[0]]), 1, 'first did value' + sfx))
     elif cid == 24:
         out.append((b'\x62' + u(2, a[1]) + rb(rnd, 3), [], None, 'raw'))
     elif cid == 25:
